@@ -89,6 +89,56 @@ class Script(np.random.RandomState):
     def exponential(self, scale=1.0, size=None):
         return self._out("exponential", (scale,), size)
 
+    # every other continuous generator a (new) fast path might decide to call is recorded as well
+    def lognormal(self, mean=0.0, sigma=1.0, size=None):
+        return self._out("lognormal", (mean, sigma), size)
+
+    def chisquare(self, df, size=None):
+        return self._out("chisquare", (df,), size)
+
+    def standard_t(self, df, size=None):
+        return self._out("standard_t", (df,), size)
+
+    def logistic(self, loc=0.0, scale=1.0, size=None):
+        return self._out("logistic", (loc, scale), size)
+
+    def gumbel(self, loc=0.0, scale=1.0, size=None):
+        return self._out("gumbel", (loc, scale), size)
+
+    def rayleigh(self, scale=1.0, size=None):
+        return self._out("rayleigh", (scale,), size)
+
+    def weibull(self, a, size=None):
+        return self._out("weibull", (a,), size)
+
+    def pareto(self, a, size=None):
+        return self._out("pareto", (a,), size)
+
+    def power(self, a, size=None):
+        return self._out("power", (a,), size)
+
+    def wald(self, mean, scale, size=None):
+        return self._out("wald", (mean, scale), size)
+
+    def triangular(self, left, mode, right, size=None):
+        return self._out("triangular", (left, mode, right), size)
+
+    def multivariate_normal(self, mean, cov, size=None, *a, **k):
+        n = len(np.atleast_1d(mean))
+        sz = () if size is None else ((int(size),) if np.isscalar(size) else tuple(size))
+        return self._out("multivariate_normal", (mean, cov), sz + (n,))
+
+    def random(self, size=None):
+        return self._out("random_sample", (), size)
+
+    ranf = sample = random
+
+    def leaked(self):
+        """True when the underlying (real) generator was consumed: a generator method that is not scripted was used"""
+        st = np.random.RandomState.get_state(self)
+        ref = np.random.RandomState(12345).get_state()
+        return not (np.array_equal(st[1], ref[1]) and st[2] == ref[2])
+
 
 def unit_plan(rows):
     """draws [0 | I]: column 0 is the zero vector, column k the k-th unit vector"""
@@ -226,6 +276,14 @@ def affine_oracle(dist, offset, B, key, desc, ctx, singular=False, tol=1e-7, Hfa
     n = len(offset)
     H, g = hessian_from_logpdf(dist, offset)
     fails = 0
+    if not np.all(np.isfinite(H)) and hasattr(dist, "_logupdf"):
+        # e.g. DIA-stored sqrtprec with bands: the normalising constant is computed from the raw DIA data (padding
+        # zeros -> log 0); the un-normalised log-density is still what the object reports for the shape of the law
+        class _U:
+            def __init__(self, d): self.d = d
+            def logpdf(self, x): return self.d._logupdf(x)
+        H, g = hessian_from_logpdf(_U(dist), offset)
+        ctx.extra_cov["oracle_used_unnormalised_density"] = ctx.extra_cov.get("oracle_used_unnormalised_density", 0) + 1
     if not np.all(np.isfinite(H)):
         if Hfallback is None:
             ctx.note(f"log-density not finite around the offset at {desc}; covariance oracle skipped")
@@ -286,6 +344,12 @@ def gen_matrix(rs, kind, n):
         for i in range(n - 1):
             M[i, i + 1] = float(rs.choice([-1.0, 1.0, 0.5]))
         return M
+    if kind == "tridiag":
+        M = np.diag(4.0 * np.sign(d))
+        for i in range(n - 1):
+            M[i, i + 1] = float(rs.choice([-1.0, 1.0, 0.5]))
+            M[i + 1, i] = float(rs.choice([-1.0, 1.0, 0.5, 2.0]))
+        return M
     # full non-symmetric, diagonally dominant (invertible)
     M = off.copy()
     for i in range(n):
@@ -318,16 +382,29 @@ def run_gaussian(ctx, cuqi, thorough):
         shape_kind = rs.choice(["scalar", "vector", "diag2d", "full", "full", "full"]) if n > 1 else rs.choice(["scalar", "vector", "diag2d"])
         sparse_in = bool(rs.rand() < 0.3) and shape_kind in ("diag2d", "full")
         mkind = rs.choice(["scalar", "vector", "zero"])
-        cases.append((n, form, str(shape_kind), sparse_in, str(mkind)))
+        cases.append((n, form, str(shape_kind), sparse_in, str(mkind), None))
     # DESIGN §5 #9 (repaired in /repo): lower-triangular non-diagonal sqrtprec, always present, dense
     for n in (2, 3, 5, 8):
         for _ in range(3):
-            cases.append((n, "sqrtprec", "lower!", False, "vector"))
-    cases.append((76, "sqrtprec", "lowerbi!", False, "vector"))
-    cases.append((76, "sqrtprec", "lowerbi!", True, "vector"))
+            cases.append((n, "sqrtprec", "lower!", False, "vector", None))
+    cases.append((76, "sqrtprec", "lowerbi!", False, "vector", None))
+    cases.append((76, "sqrtprec", "lowerbi!", True, "vector", None))
+    # sparse square roots / covariances / precisions in EVERY scipy storage format, with off-diagonal bands,
+    # on both sides of the dense/sparse switch (the docstring example `diags([1,-1],[0,1])` is DIA + upper bidiagonal)
+    SPARSE_FORMATS = ["dia", "csr", "csc", "coo", "bsr", "lil", "dok"]
+    bands = ["upperbi", "lowerbi", "tridiag", "full"]
+    for fmt in SPARSE_FORMATS:
+        cases.append((int(rint(rs, 3, 6)), "sqrtprec", "upperbi!", True, "vector", fmt))
+        cases.append((int(rs.choice([74, 76, 78])), "sqrtprec", str(rs.choice(["upperbi", "tridiag"])) + "!", True, "vector", fmt))
+        for _ in range(3 * ctx.scale):
+            cases.append((int(rint(rs, 2, 6)), str(rs.choice(["sqrtprec", "sqrtcov", "cov", "prec"])),
+                          str(rs.choice(bands)) + "!", True, str(rs.choice(["vector", "scalar"])), fmt))
+        if thorough:
+            for form_ in ("sqrtcov", "cov", "prec"):
+                cases.append((int(rs.choice([74, 76])), form_, "lowerbi!", True, "vector", fmt))
 
     lines, metas = [], []
-    for (n, form, shape_kind, sparse_in, mkind) in cases:
+    for (n, form, shape_kind, sparse_in, mkind, fmt_forced) in cases:
         big = n > 20
         squares = [0.25, 1.0, 4.0, 16.0, 0.0625]
         if mkind == "scalar":
@@ -362,15 +439,16 @@ def run_gaussian(ctx, cuqi, thorough):
                 param = M
             val = None
         if sparse_in and not np.isscalar(param) and np.ndim(param) == 2:
-            fmt = rs.choice(["csr", "csc", "dia"]) if shape_kind == "diag2d" else rs.choice(["csr", "csc"])
+            fmt = fmt_forced or (rs.choice(["csr", "csc", "dia"]) if shape_kind == "diag2d" else rs.choice(["csr", "csc", "dia", "coo"]))
             param_obj = sp.csr_matrix(param).asformat(str(fmt))
         else:
             param_obj = param
             sparse_in = False
+            fmt = None
         desc = {"family": "Gaussian", "dim": n, "form": form, "value": shape_kind if sub is None else f"full:{sub}",
-                "sparse_input": bool(sparse_in), "mean": mkind,
+                "sparse_input": (str(fmt) if sparse_in else False), "mean": mkind,
                 "param": (np.asarray(param).tolist() if n <= 8 else "…"), "mean_value": (np.asarray(mean).tolist() if n <= 8 else "…")}
-        key = f"Gaussian:{form}:{shape_kind.rstrip('!') if sub is None else sub}:{'sparse-in' if sparse_in else 'dense-in'}"
+        key = f"Gaussian:{form}:{shape_kind.rstrip('!') if sub is None else sub}:{('sparse-' + str(fmt)) if sparse_in else 'dense-in'}"
         try:
             with quiet():
                 G = Gaussian(mean, **{form: param_obj})
@@ -379,7 +457,13 @@ def run_gaussian(ctx, cuqi, thorough):
             ctx.note(f"Gaussian constructor refused {key} dim {n}: {type(e).__name__}")
             ctx.case("gaussian-refused", desc, nontrivial=False)
             continue
-        if n_dim != n:
+        dim_mismatch = False
+        if n_dim != n and np.ndim(param) == 2:
+            # the matrix parameter fixes the dimension; the object reports another one (DOK storage: len() is nnz)
+            dim_mismatch = True
+            ctx.fail(f"Gaussian:{fmt}-input:dim", desc, f"dim = {n} (rows of the {n}x{n} matrix parameter); draws carry the distribution's geometry",
+                     f"dim = {n_dim}", "dimension / geometry of the distribution is not that of its matrix parameter")
+        elif n_dim != n:
             # scalar parameters and scalar mean: dim is 1
             n = n_dim
             desc["dim"] = n
@@ -390,7 +474,7 @@ def run_gaussian(ctx, cuqi, thorough):
         rng = Script(unit_plan(n))
         s, err, untouched = call_sample(G, n + 1, rng)
         meta = dict(key=key, desc=desc, G=G, n=n, form=form, shape_kind=shape_kind, sub=sub, val=val, param=param,
-                    Rd=Rd, is_sparse=is_sparse, s=s, err=err, untouched=untouched, calls=rng.calls, mean=mean)
+                    Rd=Rd, is_sparse=is_sparse, s=s, err=err, untouched=untouched, calls=rng.calls, mean=mean, dim_mismatch=dim_mismatch)
         # model lines: 1) diagonal forms: the stored sqrtprec from the parameter; 2) the draw itself
         if val is not None:
             lines.append(f"dform {form} {n} {qv(np.atleast_1d(val).tolist())}")
@@ -462,7 +546,7 @@ def run_gaussian(ctx, cuqi, thorough):
             if bad and nf == 0:
                 # look near the case: same object, other draws
                 pass
-        for d, g in wrap_oracle(cuqi, G, n + 1, m["s"]):
+        for d, g in ([] if m["dim_mismatch"] else wrap_oracle(cuqi, G, n + 1, m["s"])):
             ctx.fail(key + ":wrap", desc, d, g, "wrapping of several draws")
     ctx.extra_cov["gaussian_solver_hist"] = solver_hist
 
@@ -786,60 +870,127 @@ def gen_law(method, args):
         return st.expon()
     if method == "exponential":
         return st.expon(scale=a[0])
+    if method == "lognormal":
+        return st.lognorm(s=a[1], scale=math.exp(a[0]))
+    if method == "chisquare":
+        return st.chi2(a[0])
+    if method == "standard_t":
+        return st.t(a[0])
+    if method == "logistic":
+        return st.logistic(a[0], a[1])
+    if method == "gumbel":
+        return st.gumbel_r(a[0], a[1])
+    if method == "rayleigh":
+        return st.rayleigh(scale=a[0])
+    if method == "weibull":
+        return st.weibull_min(a[0])
+    if method == "pareto":
+        return st.lomax(a[0])
+    if method == "power":
+        return st.powerlaw(a[0])
+    if method == "wald":
+        return st.invgauss(mu=a[0] / a[1], scale=a[1])
+    if method == "triangular":
+        return st.triang(c=(a[1] - a[0]) / (a[2] - a[0]), loc=a[0], scale=a[2] - a[0])
     return None
 
 
 def law_oracle(ctx, D, key, desc, K=9):
-    """dim-1 object: push a quantile grid of the generator's documented law through sample() and compare the
-    probability of each cell with the integral of exp(logpdf) of the same object."""
+    """Recorded law vs reported density, any dimension (independent components).
+    Whatever generator method the code calls is recorded with its arguments; a quantile grid of the *documented law
+    of that call* (per component: argument arrays are broadcast) is returned, pushed through sample(), and the
+    probability of every quantile cell is compared with the integral of exp(logpdf) of the same object over the
+    cell (other coordinates held at their median draw; dim 1: absolute masses 1/K, dim > 1: all cells and both
+    tails must carry the same share of the section's total mass)."""
     from scipy.integrate import quad
     us = (np.arange(K) + 0.5) / K
-    holder = {}
+    with quiet():
+        dim = int(D.dim)
+    assert K != dim
+    rec = {"calls": [], "unknown": []}
 
-    def plan(method, shape, k):
-        law = gen_law(method, holder["args"][k])
-        holder.setdefault("laws", []).append((method, law))
-        if law is None:
-            return None
-        return law.ppf(us).reshape(shape)
+    def comp_args(args, j):
+        out = []
+        for x in args:
+            v = np.asarray(x, dtype=float).ravel()
+            out.append(float(v[j]) if v.size == dim else float(v[0]))
+        return out
 
     class S2(Script):
         def _out(self, method, args, size):
-            holder.setdefault("args", []).append(args)
+            rec["cur"] = args
             return super()._out(method, args, size)
+
+    def plan(method, shape, k):
+        args = rec["cur"]
+        rec["calls"].append((method, args, shape))
+        if shape == (K, dim):
+            comp_axis = 1
+        elif shape == (dim, K):
+            comp_axis = 0
+        else:
+            rec["unknown"].append((method, shape)); return None
+        out = np.zeros(shape)
+        for j in range(dim):
+            law = gen_law(method, comp_args(args, j))
+            if law is None:
+                rec["unknown"].append((method, shape)); return None
+            col = law.ppf(us)
+            if comp_axis == 1:
+                out[:, j] = col
+            else:
+                out[j, :] = col
+        return out
     rng = S2(plan)
     s, err, unt = call_sample(D, K, rng)
     if err is not None:
         ctx.fail(key, desc, "a sample", err, "sampling raises")
         return
-    laws = holder.get("laws", [])
-    if len(laws) != 1 or laws[0][1] is None:
-        ctx.note(f"law oracle not applicable at {desc}: generator calls {[(c[0]) for c in rng.calls]}")
+    if rng.leaked() or rec["unknown"] or len(rec["calls"]) != 1:
+        ctx.disagree(key, desc, "one scripted generator call of a known law", {"calls": [str(c[:1]) + str(c[2]) for c in rec["calls"]], "unscripted_generator_used": rng.leaked()},
+                     "generator use cannot be attributed to a documented law (recorded law vs density not decidable)")
         return
-    x = values(s).ravel()
-    if len(x) != K or not np.all(np.isfinite(x)):
-        ctx.fail(key, desc, f"{K} finite draws", str(x)[:100], "draws not finite")
+    X = values(s)
+    if X.shape != (dim, K) or not np.all(np.isfinite(X)):
+        ctx.fail(key, desc, f"({dim},{K}) finite draws", str(X)[:120], "draws not finite / wrong shape")
         return
-    dx = np.diff(x)
-    if not (np.all(dx > 0) or np.all(dx < 0)):
-        ctx.note(f"law oracle: map draw->sample not monotone at {desc}")
-        return
-    worst = 0.0
-    for j in range(K - 1):
-        a, b = (x[j], x[j + 1]) if x[j] < x[j + 1] else (x[j + 1], x[j])
-        mass, _ = quad(lambda t: math.exp(logpdf1(D, np.array([t]))), a, b, epsabs=1e-12, epsrel=1e-10)
-        worst = max(worst, abs(mass - 1.0 / K))
-    if worst > 1e-7:
-        ctx.fail(key, desc, f"each of the {K - 1} quantile cells of the generator's law carries mass {1.0 / K:.6f} under exp(logpdf)",
-                 {"max_abs_mass_error": worst, "draws": x.tolist(), "generator": [str(c[:2]) for c in rng.calls]},
-                 "marginal law of the draws differs from the density the object reports")
+    mid = X[:, K // 2].copy()
+    for j in range(dim):
+        x = X[j]
+        dx = np.diff(x)
+        if not (np.all(dx > 0) or np.all(dx < 0)):
+            ctx.note(f"law oracle: map draw->sample not monotone in component {j} at {desc}")
+            continue
+        xs_ = np.sort(x)
+
+        def f(t, j=j):
+            p = mid.copy(); p[j] = t
+            v = logpdf1(D, p)
+            return math.exp(v) if v == v else 0.0
+        cells = [quad(f, xs_[i], xs_[i + 1], epsabs=1e-13, epsrel=1e-10)[0] for i in range(K - 1)]
+        if dim == 1:
+            unit = 1.0 / K
+        else:
+            unit = float(np.median(cells))
+        worst = max(abs(c - unit) for c in cells) / unit if unit > 0 else float("inf")
+        # tails: half a cell each (checked more loosely: improper integrals)
+        w = xs_[-1] - xs_[0]
+        lo = quad(f, xs_[0] - 60 * w, xs_[0], epsabs=1e-13, epsrel=1e-9, limit=200)[0]
+        hi = quad(f, xs_[-1], xs_[-1] + 60 * w, epsabs=1e-13, epsrel=1e-9, limit=200)[0]
+        tail_bad = (lo > 0.5 * unit * 1.001 or hi > 0.5 * unit * 1.001)   # truncated tails can only be too small
+        if worst > 1e-6 or tail_bad:
+            ctx.fail(key, desc, f"every quantile cell of the recorded generator law carries the same mass ({'1/K' if dim == 1 else 'share of the section'}) under exp(logpdf)",
+                     {"component": j, "max_rel_cell_error": worst, "cell_masses": cells, "tails": [lo, hi], "unit": unit,
+                      "draws": x.tolist(), "generator_call": [str(rec["calls"][0][0]), str(rec["calls"][0][1])]},
+                     "law of the recorded generator call differs from the density the object reports")
+            return
 
 
 def run_iid(ctx, cuqi, thorough):
     import scipy.stats as sps
     from cuqi.distribution import Normal, Gamma, InverseGamma, Beta, Laplace, Uniform, Cauchy, Lognormal, Gaussian
     rs = np.random.RandomState(ctx.seed + 504)
-    dy = [0.25, 0.5, 1.0, 2.0, 4.0]
+    dy = [0.25, 0.5, 2.0, 4.0]          # scale-like parameters never 1: std-vs-variance / rate-vs-scale slips are visible
     fams = {
         "normal": (Normal, lambda n: [rint(rs, -3, 3, size=n).astype(float), rs.choice(dy, size=n)]),
         "gamma": (Gamma, lambda n: [rs.choice([0.5, 1.0, 2.0, 3.0, 4.5], size=n), rs.choice(dy, size=n)]),
@@ -983,6 +1134,9 @@ def run_iid(ctx, cuqi, thorough):
             ctx.case("iid-law", {"family": fam, "params": pj})
             # when the tie broke at this case the failing input (if any) is reported under the same key
             law_oracle(ctx, Dj, key if len(ctx.disagreements) > ndis0 else f"iid:{fam}:law", {"family": fam, "params": pj})
+        if dim > 1:
+            ctx.case("iid-law-vector", desc)
+            law_oracle(ctx, D, key if len(ctx.disagreements) > ndis0 else f"iid:{fam}:law", desc, K=7)
         if dim > 1 and fam in ("invgamma", "beta", "cauchy"):
             # real scipy path with vector parameters: component j must follow the j-th parameters
             K = 5
@@ -1031,16 +1185,106 @@ def run_iid(ctx, cuqi, thorough):
         if not close(got, fl(o), 1e-10):
             ctx.disagree(f"iid:{fam}:density-formula", {"family": fam, "x": x, "p": [p1, p2]}, fl(o), got, "closed-form log-density")
             law_oracle(ctx, D, f"iid:{fam}:density-formula", {"family": fam, "params": [p1, p2]})
-    # Lognormal / Gaussian dim 1: law oracle through randn
-    for rep in range(4 * ctx.scale):
-        mu = float(rint(rs, -2, 2)); var = float(rs.choice([0.25, 1.0, 4.0]))
+
+
+# ----------------------------------------------------------------------------- Lognormal (composes the Gaussian sampler)
+class _LogVar:
+    """density of y = log x for x ~ the Lognormal object: logpdf_Y(y) = logpdf_X(exp y) + sum y"""
+    def __init__(self, L): self.L = L
+    def logpdf(self, y):
+        y = np.asarray(y, dtype=float)
+        return self.L.logpdf(np.exp(y)) + float(np.sum(y))
+
+
+def run_lognormal(ctx, cuqi, thorough):
+    from cuqi.distribution import Lognormal, Gaussian
+    rs = np.random.RandomState(ctx.seed + 506)
+    sq = [0.0625, 0.25, 4.0, 16.0]          # never 1
+    cases = []
+    for dim in (1, 2, 3, 4, 5):
+        for kind in ("scalar", "vector", "diag2d", "full"):
+            for rep in range(2 * ctx.scale):
+                cases.append((dim, kind))
+    lines, metas = [], []
+    for dim, kind in cases:
+        mean = rint(rs, -1, 1, size=dim).astype(float) if dim > 1 else float(rint(rs, -1, 1))
+        if kind == "scalar":
+            cov = float(rs.choice(sq)); val = np.array([cov])
+        elif kind == "vector":
+            val = rs.choice(sq, size=dim); cov = val.copy() if dim > 1 else float(val[0])
+        elif kind == "diag2d":
+            val = rs.choice(sq, size=dim); cov = np.diag(val)
+        else:
+            if dim == 1:
+                continue
+            M = gen_matrix(rs, str(rs.choice(["lower", "full", "upperbi"])), dim) / 2.0
+            cov = M @ M.T; val = None
+        desc = {"family": "Lognormal", "dim": dim, "cov_kind": kind, "mean": np.asarray(mean).tolist(), "cov": np.asarray(cov).tolist()}
+        key = f"Lognormal:{kind}"
+        try:
+            with quiet():
+                L = Lognormal(mean, cov)
+                assert int(L.dim) == dim
+        except Exception as e:
+            ctx.note(f"Lognormal constructor refused {desc}: {type(e).__name__}")
+            continue
+        target = np.hstack([np.zeros((dim, 1)), np.eye(dim)])
+
+        def plan(method, shape, k, target=target):
+            if method in ("randn", "standard_normal") and shape == target.shape:
+                return target
+            return None
+        rng = Script(plan)
+        s, err, unt = call_sample(L, dim + 1, rng)
         with quiet():
-            L = Lognormal(mu, var)
-            Gs = Gaussian(mu, var)
-        ctx.case("iid-law", {"family": "lognormal", "params": [mu, var]})
-        law_oracle(ctx, L, "Lognormal:law", {"family": "lognormal", "params": [mu, var]})
-        ctx.case("iid-law", {"family": "gaussian", "params": [mu, var]})
-        law_oracle(ctx, Gs, "Gaussian:dim1:law", {"family": "gaussian", "params": [mu, var]})
+            Rd = dense(L._normal.sqrtprec)
+        lines.append(f"dform cov {dim} {qv(val.tolist())}" if val is not None else "noop")
+        lines.append(f"gauss 0 {qv(np.atleast_1d(np.asarray(mean, dtype=float)).tolist())} {qm(Rd.tolist())} {qm(target.T.tolist())}")
+        metas.append(dict(L=L, dim=dim, kind=kind, desc=desc, key=key, s=s, err=err, unt=unt, rng=rng, Rd=Rd, val=val))
+    outs = ctx.lean.drive(lines)
+    for i, m in enumerate(metas):
+        L, dim, kind, desc, key = m["L"], m["dim"], m["kind"], m["desc"], m["key"]
+        o_form, o_g = outs[2 * i], outs[2 * i + 1]
+        ctx.case("lognormal-affine", desc)
+        if m["err"] is not None:
+            ctx.disagree(key, desc, "a sample", m["err"], "sampling raises")
+            ctx.fail(key, desc, "a sample", m["err"], "sampling raises")
+            continue
+        if not m["unt"]:
+            ctx.fail("rng:lognormal:global-state", desc, "global numpy random state untouched", "changed")
+        calls = m["rng"].calls
+        gaussian_path = len(calls) == 1 and calls[0][0] in ("randn", "standard_normal") and calls[0][2] == (dim, dim + 1) and not m["rng"].leaked()
+        if not gaussian_path:
+            ctx.disagree(key, desc, f"one call randn({dim},{dim + 1}) (Gaussian sampler, then exp)", str([(c[0], c[2]) for c in calls])[:200], "generator calls")
+        X = values(m["s"])
+        if m["val"] is not None and o_form not in ("irr", "err-shape", "bad-op"):
+            r_model = [float(x) for x in pv(o_form.split()[0])]
+            if not (np.count_nonzero(m["Rd"] - np.diag(np.diag(m["Rd"]))) == 0 and vclose(np.diag(m["Rd"]), r_model, 1e-12)):
+                ctx.disagree(key, desc, r_model, np.diag(m["Rd"]).tolist(), "sqrtprec of the underlying Gaussian (1/sqrt(cov))")
+        if gaussian_path and X.shape == (dim, dim + 1) and np.all(X > 0):
+            Y = np.log(X)
+            if not o_g.startswith(("err", "bad")):
+                Sm = np.array([[float(x) for x in row] for row in pm(o_g.split(" ", 1)[1])]).T
+                if not mclose(Y.tolist(), Sm.tolist(), 1e-9):
+                    ctx.disagree(key, desc, Sm.tolist(), Y.tolist(), "log-draws = mean + sqrtprec^-1 xi for xi = 0, e_1..e_n")
+            offset = Y[:, 0].copy(); B = Y[:, 1:] - offset[:, None]
+            affine_oracle(_LogVar(L), offset, B, key, desc, ctx, tol=1e-6)
+        if kind != "full":
+            ctx.case("lognormal-law", desc)
+            law_oracle(ctx, L, key, desc, K=7 if dim > 1 else 9)
+        for d, g in wrap_oracle(cuqi, L, dim + 1, m["s"]):
+            ctx.fail(f"wrap:lognormal:N>1", desc, d, g, "wrapping")
+    # Gaussian with scalar / vector covariance: recorded law vs density as well
+    for rep in range(6 * ctx.scale):
+        dim = int(rs.choice([1, 2, 3, 5]))
+        mu = rint(rs, -2, 2, size=dim).astype(float)
+        var = rs.choice(sq, size=dim)
+        form = str(rs.choice(["cov", "prec", "sqrtcov", "sqrtprec"]))
+        with quiet():
+            Gs = Gaussian(mu, **{form: (var if rs.rand() < 0.6 else float(var[0]))})
+        desc = {"family": "gaussian", "dim": dim, "form": form, "mean": mu.tolist(), "value": var.tolist()}
+        ctx.case("gaussian-law", desc)
+        law_oracle(ctx, Gs, f"Gaussian:{form}:diagonal:law", desc, K=7 if dim > 1 else 9)
 
 
 def run(ctx):   # noqa: F811  (extends the entry point defined above)
@@ -1057,6 +1301,7 @@ def run(ctx):   # noqa: F811  (extends the entry point defined above)
     run_wrap(ctx, cuqi, thorough)
     run_cond(ctx, cuqi, thorough)
     run_iid(ctx, cuqi, thorough)
+    run_lognormal(ctx, cuqi, thorough)
 
 
 # ----------------------------------------------------------------------------- ModifiedHalfNormal
